@@ -1,0 +1,11 @@
+//go:build verif
+
+package file
+
+import "time"
+
+// VerifTotals exposes the unexported totals of a parsed plan (read-only) to
+// external verification harnesses. Only compiled with the "verif" build tag.
+func (r *RunnableStages) VerifTotals() (time.Duration, uint64, int) {
+	return r.stagesTotalDuration, r.maxFailures, r.maxFailuresRate
+}
